@@ -3641,7 +3641,8 @@ class GraphicObject:
             except KeyError:
                 pass
             self.stroke_width = self.stroke_width.value(
-                relative_length=sqrt(width * width + height * height), **kwargs
+                relative_length=sqrt((width * width + height * height) / 2.0),
+                **kwargs
             )
             # A percentage stroke_width is always computed as a percentage of the normalized viewBox diagonal length.
 
